@@ -1,6 +1,131 @@
 import YaegiVerif.Common.Sexp
-/- Line-protocol front end for C19 (glue). Placeholder until the property's model exists. -/
+import YaegiVerif.Model.Debug
+import YaegiVerif.Generated.C19
+import YaegiVerif.Expected.C19
+/- Line-protocol front end for C19 (glue, not a proof obligation).
+
+   run GRAPH TRAMP BPS CMDS TAPE
+     GRAPH = (g (code tnext fnext line posValid isNop parent (children…) func start) …)   node i = i-th entry;
+             -1 = none; func = - for none
+     TRAMP = code of the forwarding closures of setExec
+     BPS   = (b (l 9) (f name) …)
+     CMDS  = (c c e i o u p t …)     continue, step entry/into/over/out/other, terminate; the first starts the session
+     TAPE  = (t (c s) (n k tramp) (z) (p) …)   what the closures did, in order: call runCfg on node s, hand over
+             to the closure of node k (through a forwarding closure or not), return nil, panic
+   → marks=i.i.i y=EVENTS g=EVENTS out=halt0|halt1|run left=N steps=N sep=0|1 resp=ok|tramp|nonedge
+     marks: nodes that break after SetBreakpoints (sorted); y: events of the model of yaegi's debugger; g: events of the
+     reference debugger; EVENTS = reason:line:step,… (- if none); left: tape items not consumed; steps: closures executed;
+     sep: codeSeparates; resp: the tape follows the edges of the graph -/
 namespace YaegiVerif.Driver.C19
-open YaegiVerif
-def handle (_args : List Sexp) : String := "unimplemented"
+open YaegiVerif YaegiVerif.Debug
+
+inductive Item | call (s : Nat) | next (k : Nat) (tramp : Bool) | nil | panic
+
+def optNat (s : Sexp) : Option (Option Nat) :=
+  match s.int? with
+  | some i => if i < 0 then some none else some (some i.toNat)
+  | none => none
+
+def parseNode (s : Sexp) : Option Node :=
+  match s with
+  | .list [code, t, f, line, pv, nop, parent, .list ch, .atom fn, start] => do
+    let code ← code.nat?
+    let t ← optNat t
+    let f ← optNat f
+    let line ← line.nat?
+    let pv ← pv.bool?
+    let nop ← nop.bool?
+    let parent ← optNat parent
+    let ch ← ch.mapM Sexp.nat?
+    let start ← optNat start
+    some { code, tnext := t, fnext := f, line, posValid := pv, isNop := nop, parent, children := ch,
+           func := if fn == "-" then none else some fn, start }
+  | _ => none
+
+def parseBp (s : Sexp) : Option BpReq :=
+  match s with
+  | .list [.atom "l", l] => l.nat?.map .line
+  | .list [.atom "f", .atom n] => some (.func n)
+  | _ => none
+
+def parseCmd (s : Sexp) : Option Cmd :=
+  match s with
+  | .atom "c" => some .cont
+  | .atom "e" => some (.step .entry)
+  | .atom "i" => some (.step .into)
+  | .atom "o" => some (.step .over)
+  | .atom "u" => some (.step .out)
+  | .atom "p" => some (.step .other)
+  | .atom "t" => some .terminate
+  | _ => none
+
+def parseItem (s : Sexp) : Option Item :=
+  match s with
+  | .list [.atom "c", k] => k.nat?.map .call
+  | .list [.atom "n", k, tr] => do some (.next (← k.nat?) (← tr.bool?))
+  | .list [.atom "z"] => some .nil
+  | .list [.atom "p"] => some .panic
+  | _ => none
+
+/-- the closures do what the tape says -/
+def oracle (g : Graph) (tramp : Nat) : Prog (List Item) :=
+  ⟨fun st _ _ =>
+    match st with
+    | [] => ([], .next none)
+    | .call s :: rest => (rest, .call s (entryClo g s))
+    | .next k tr :: rest => (rest, .next (some ⟨k, if tr then tramp else g.code k⟩))
+    | .nil :: rest => (rest, .next none)
+    | .panic :: rest => (rest, .panic)⟩
+
+def reasonName : Reason → String
+  | .pause => "pause" | .brk => "brk" | .entry => "entry" | .into => "into" | .over => "over" | .out => "out"
+  | .terminate => "terminate" | .enterG => "enterG" | .exitG => "exitG"
+
+def showEvents (g : Graph) (es : List Event) : String :=
+  if es.isEmpty then "-" else
+  ",".intercalate (es.reverse.map fun e =>
+    let line := match e.node with | some i => g.line i | none => 0
+    s!"{reasonName e.reason}:{line}:{e.step}")
+
+/-- does the tape follow the edges of the graph (the hypothesis `Respects` on this run)? -/
+def respects (g : Graph) : List Item → List Nat → String
+  | [], _ => "ok"
+  | .call s :: rest, stack => if g.code s = 0 then respects g rest stack else respects g rest (s :: stack)
+  | .next k tr :: rest, i :: stack =>
+    if tr then "tramp"
+    else if g.code k ≠ 0 ∧ (g.tnext i = some k ∨ g.fnext i = some k) then respects g rest (k :: stack)
+    else "nonedge"
+  | .next _ _ :: _, [] => "nonedge"
+  | .nil :: rest, _ :: stack => respects g rest stack
+  | .nil :: _, [] => "ok"
+  | .panic :: _, _ => "ok"
+
+def insertSorted (x : Nat) : List Nat → List Nat
+  | [] => [x]
+  | y :: ys => if x < y then x :: y :: ys else if x = y then y :: ys else y :: insertSorted x ys
+
+def showOut : Ctl → String
+  | .halt false => "halt0" | .halt true => "halt1" | _ => "run"
+
+def handle (args : List Sexp) : String :=
+  match args with
+  | [.atom "run", .list (.atom "g" :: nodes), tramp, .list (.atom "b" :: bps), .list (.atom "c" :: cmds),
+     .list (.atom "t" :: tape)] =>
+    (match nodes.mapM parseNode, tramp.nat?, bps.mapM parseBp, cmds.mapM parseCmd, tape.mapM parseItem with
+     | some nodes, some tramp, some bps, some cmds, some tape =>
+       let g : Graph := nodes.toArray
+       let F := LoopFacts.ofRaw Generated.C19.facts
+       let marks := place g 0 bps
+       let marked := fun i => marks.contains i
+       let P := oracle g tramp
+       let fuel := 2 * tape.length + 8
+       let y := drun ⟨F, g, marked, false⟩ P fuel (DCfg.init tape cmds)
+       -- the reference debugger is the specification: it does not follow the source
+       let r := drun ⟨LoopFacts.ofRaw Expected.C19.facts, g, marked, true⟩ P fuel (DCfg.init tape cmds)
+       let ms := marks.foldl (fun acc x => insertSorted x acc) []
+       let msS := if ms.isEmpty then "-" else ".".intercalate (ms.map toString)
+       s!"marks={msS} y={showEvents g y.events} g={showEvents g r.events} out={showOut y.ctl} left={y.st.length} steps={y.trace.length} sep={if codeSeparates g then 1 else 0} resp={respects g tape []}"
+     | _, _, _, _, _ => "bad-op")
+  | _ => "bad-op"
+
 end YaegiVerif.Driver.C19
